@@ -104,7 +104,7 @@ class Mutant:
 class Unit:
     def __init__(self, name, props, functions, template, jobs, blocks=(), mutants=(),
                  mechanisms=(), assumptions=(), replay=None, notes='',
-                 replay_inputs=None, safety_c03=True):
+                 replay_inputs=None, safety_c03=True, gen=None):
         self.name = name
         self.props = list(props)          # property ids this unit contributes to
         self.functions = list(functions)
@@ -118,3 +118,4 @@ class Unit:
         self.notes = notes
         self.replay_inputs = dict(replay_inputs or {})  # replay arg name -> 'function::var' in the cbmc trace
         self.safety_c03 = safety_c03
+        self.gen = gen
